@@ -56,6 +56,16 @@ class C20(Prop):
                    "the critical marker args.critical = 1 is split off by the harness before interning"]
 
     def gen_case(self, rng, k, tier):
+        if k % 10 == 4:
+            # several ranks in one call, one of them without any device activity (a host-only rank has no counter series)
+            cfg = gen.GenCfg(n_ranks=rng.choice([2, 3]), n_steps=rng.choice([0, 1]), p_launch=0.7, p_mem=0.4, max_children=2, max_depth=2,
+                             base=rng.choice([0, 1000]), fmt=rng.choice(["json", "json.gz"]))
+            cfg.per_rank = {rng.randrange(cfg.n_ranks - 1): {"p_launch": 0.0, "unlinked_head": 0}}
+            from .common import case_from_cfg
+            case = case_from_cfg(rng, cfg)
+            case["kind"] = "wcmulti"
+            case["order"] = rng.choice(["asc", "desc", "default"])
+            return case
         if k % 2 == 0:
             case = gen_cp_case(rng, tier)
             case["n_ranks_forced"] = 1
@@ -107,7 +117,30 @@ class C20(Prop):
         return case
 
     def observe(self, case):
+        if case["kind"] == "wcmulti":
+            return self._wcmulti(case)
         return self._overlay(case) if case["kind"] == "overlay" else self._files(case)
+
+    # ---- counters written for several ranks in one call
+    def _wcmulti(self, case):
+        obs: Dict[str, Any] = {"prop": "C20", "kind": "wcmulti", "err": "", "files": []}
+        with hta.CaseDir("c20m") as d:
+            ta = write_and_load(case, d, include_last=True)
+            ranks = sorted(ta.t.traces)
+            req = None if case["order"] == "default" else ranks if case["order"] == "asc" else ranks[::-1]
+            intern = Interner()
+            try:
+                ta.generate_trace_with_counters(ranks=req)
+                for r in (ranks if req is not None else ranks[:1]):
+                    src_path = ta.t.trace_files[r]
+                    src = [{"e": intern(e), "ph": str(e.get("ph", ""))} for e in read_any(src_path)["traceEvents"]]
+                    wc_path = src_path.replace(".json", "_with_counters.json")
+                    has = os.path.exists(wc_path)
+                    wc = [{"e": intern(e), "ph": str(e.get("ph", ""))} for e in read_any(wc_path)["traceEvents"]] if has else []
+                    obs["files"].append({"rank": r, "src": src, "hasWc": has, "wc": wc})
+            except Exception as ex:
+                obs["err"] = hta.exc_str(ex)
+        return obs
 
     # ---- with counters + overlay
     def _overlay(self, case):
@@ -258,6 +291,8 @@ class C20(Prop):
         os.remove(scratch)
 
     def nontrivial(self, case, obs):
+        if obs.get("kind") == "wcmulti":
+            return sum(1 for f in obs["files"] if f["hasWc"]) >= 1 and any(not any(x["ph"] == "C" for x in f["wc"]) for f in obs["files"])
         if obs.get("kind") == "overlay":
             nonx = any(x["ph"] != "X" for x in obs["src"])
             return nonx and any(o["all"] and not o["only"] and len(o["edges"]) > len(obs["ov"][0]["edges"]) for o in obs["ov"])
